@@ -536,7 +536,9 @@ def run_cell(g, tab, force, acc, full=False, sampled=False, label=None):
         acc.violation(mech, desc, witness(g, tab, force))
     elif rejected:
         acc.count('validate_rejected_but_nothing_expected')
-    elif label and acc.evals % 9973 == 2:
+    elif label and (acc.evals % 9973 == 2 or (
+            not force and 0 < len(exp_sel) < len(g.dests) > 2
+            and acc.evals % 997 == 3 and len(acc.samples) < 4)):
         acc.sample({
             'branches': [b[1] for b in g.w.branches],
             'queue (order of entry)': [
